@@ -52,6 +52,11 @@ def runFinalizeCase (cid : String) (field : String → List SExp) (events : List
   let rec go (ws : List Finalize.World) (k : Nat) : List (List SExp) → List String
     | [] => []
     | ev :: r =>
+      match ev with
+      | .atom "join" :: _ =>
+        -- another (silent) subscriber joins the SOURCE subject: nothing to do with this subscription
+        s!"{cid}.{k} o=" :: go ws (k + 1) r
+      | _ =>
       match parseFEv ev with
       | some x =>
         let (ws', o) := stepAll ws x
